@@ -84,12 +84,14 @@ func (s *JavaAPIListener) EnterAnnotation(ctx *parser.AnnotationContext) {
 		isSpringRestController = true
 	}
 
-	if !isSpringRestController {
+	if !hasEnterClass {
+		// class-level annotations come in any order and only contribute the base url
+		buildBaseApiUrlString(annotationName, ctx)
 		return
 	}
 
-	if !hasEnterClass {
-		buildBaseApiUrlString(annotationName, ctx)
+	if !isSpringRestController {
+		return
 	}
 
 	notAPI := annotationName == "RequestMapping" || annotationName == "GetMapping" || annotationName == "PutMapping" || annotationName == "PostMapping" || annotationName == "DeleteMapping"
